@@ -23,7 +23,8 @@ CONSTANTS EmitTR
 (* workspace discovery *)
 
 \* positions of the generated workspace and why a walk may not reach them
-Positions == {"bps/a", "bps/a/sub", ".hidden/b", "ign/c", "gi/d"}
+Positions == {"bps/a", "bps/a/sub", ".hidden/b", "ign/c", "gi/d", "lnk/e"}
+\* lnk/e: a symbolic link to a directory outside the workspace tree - a directory all the same
 Contents == {"absent", "libcnb", "other", "composite", "malformed"}
 \*  libcnb = component descriptor + Cargo.toml, other = component descriptor only,
 \*  malformed = a buildpack.toml that does not parse
